@@ -408,6 +408,17 @@ def _run_unit_once(unit_dir, tier, seed, scratch, auto_stubs):
     return u
 
 
+def unit_header_opts(unit_dir):
+    try:
+        with open(os.path.join(unit_dir, 'unit.rs')) as f:
+            for line in f:
+                if line.startswith('//@@ unit '):
+                    return gen.parse_opts(line.split()[3:])
+    except OSError:
+        pass
+    return {}
+
+
 def mustfail_groups(g):
     """Greedy colouring of the direct call graph among extracted functions."""
     recs = [r for r in g.fns if r.mustfail]
@@ -456,12 +467,13 @@ def run_unit(unit_dir, tier, seed, scratch):
     u.bounded = []
     # bounded stand-ins: clauses no contract within reach expresses are checked by the unit's native
     # enumerator over its stated finite domain on every run; labelled bounded, never counted as proved
-    if hasattr(u, 'gen') and u.gen.opts.get('bounded'):
+    hdr = unit_header_opts(unit_dir)
+    if hdr.get('bounded'):
         try:
             import witness
-            u.bounded = witness.bounded(u, unit_dir, scratch, u.gen.opts['bounded'].split(','))
+            u.bounded = witness.bounded(u, unit_dir, scratch, hdr['bounded'].split(','))
         except Exception as e:
-            u.bounded = [dict(label=l, fn='', result='error', why=repr(e)) for l in u.gen.opts['bounded'].split(',')]
+            u.bounded = [dict(label=l, fn='', result='error', why=repr(e)) for l in hdr['bounded'].split(',')]
     if u.status == 'undecided' and not u.reason.startswith(('vacuity', 'contract too weak', 'unstable')):
         # the proof could not even be attempted (lost anchor / unsupported construct).  That is never an
         # alarm by itself; but a concrete failing input found by replaying the extracted real code is.
